@@ -25,9 +25,9 @@ static inline _Bool vopt_has(const vopt_scope* o) { return o->has; }
 #define vopt_CMsgPackReadArrayScope_IMsgPackReader_has_value___k vopt_has
 #define vopt_CMsgPackReadObjectScope_IMsgPackReader_has_value___k vopt_has
 #include "gen.h"
-static inline vopt_scope mk_child(unsigned long* sz) { vopt_scope o; o.has = 1; o.size = *sz; return o; }
-#define m_std_make_optional_CMsgPackReadArrayScope_IMsgPackReader_ru64_rpIMsgPackReader_rSerializationContext_pCMsgPackReadObjectScope_IMsgPackReader__ru64_rpIMsgPackReader_rSerializationContext_xpCMsgPackReadObjectScope_IMsgPackReader(sz, rd, ctx, par) mk_child(sz)
-#define m_std_make_optional_CMsgPackReadObjectScope_IMsgPackReader_ru64_rpIMsgPackReader_rSerializationContext_pCMsgPackReadObjectScope_IMsgPackReader__ru64_rpIMsgPackReader_rSerializationContext_xpCMsgPackReadObjectScope_IMsgPackReader(sz, rd, ctx, par) mk_child(sz)
+static inline vopt_scope vopt_CMsgPackReadArrayScope_IMsgPackReader_make(struct CMsgPackReadArrayScope_IMsgPackReader* t) { vopt_scope o; o.has = 1; o.size = t->mSize; return o; }
+static unsigned long g_child_start;
+static inline vopt_scope vopt_CMsgPackReadObjectScope_IMsgPackReader_make(struct CMsgPackReadObjectScope_IMsgPackReader* t) { __CPROVER_assert(t->mStartPos == g_child_start && t->mIndex == 0, "C03: a new object scope remembers the reader position of its first key and starts at pair 0"); vopt_scope o; o.has = 1; o.size = t->mSize; return o; }
 
 /* ---- ghost state of the abstract reader and key holder ---- */
 static unsigned long g_N, g_P0, g_cur; static _Bool g_key_set; static unsigned long g_key_pair;
@@ -64,7 +64,7 @@ KEY_REF(GetValueRef_vsv_c8, vsv_c8, sv) KEY_REF(GetValueRef_u64, unsigned long, 
 /* ---- loop contracts ---- */
 #define VISITED(c, m0, w) (((c) <= g_N - (m0) && (m0) <= (w) && (w) < (m0) + (c)) || ((c) > g_N - (m0) && ((w) >= (m0) || (w) < (c) - (g_N - (m0)))))
 #define VERIF_LOOP_CMsgPackReadObjectScope_IMsgPackReader_FindValueByKey_rkvstr_c8__rkvstr_c8_1 \
-  __CPROVER_assigns(c, self->mIndex, g_cur, g_key_set, g_key_pair, g_matched, g_match_pair, g_keys_read, g_seeks, g_skip_failed, __verif_exc, __verif_exc_code, __tmp6) \
+  __CPROVER_assigns(c, self->mIndex, g_cur, g_key_set, g_key_pair, g_matched, g_match_pair, g_keys_read, g_seeks, g_skip_failed, __verif_exc, __verif_exc_code VERIF_TMPS_CMsgPackReadObjectScope_IMsgPackReader_FindValueByKey_rkvstr_c8__rkvstr_c8) \
   __CPROVER_loop_invariant(c <= self->mSize && self->mSize == g_N && self->mStartPos == g_P0 && self->mIndex <= g_N && g_cur == 2 * self->mIndex && __verif_exc == 0 && \
       __CPROVER_loop_entry(self->mIndex) <= g_N && (c <= g_N - __CPROVER_loop_entry(self->mIndex) ? self->mIndex == __CPROVER_loop_entry(self->mIndex) + c : self->mIndex == c - (g_N - __CPROVER_loop_entry(self->mIndex))) && \
       (!(g_w < g_N && VISITED(c, __CPROVER_loop_entry(self->mIndex), g_w)) || !g_eq_w)) \
@@ -77,6 +77,9 @@ KEY_REF(GetValueRef_vsv_c8, vsv_c8, sv) KEY_REF(GetValueRef_u64, unsigned long, 
   __CPROVER_assigns(self->mIndex, g_cur, g_key_set, g_key_pair, g_keys_read, g_skip_failed, __verif_exc, __verif_exc_code) \
   __CPROVER_loop_invariant(self->mSize == g_N && self->mIndex <= g_N && g_cur == 2 * self->mIndex && !g_key_set && g_keys_read == self->mIndex && __verif_exc == 0) \
   __CPROVER_decreases(self->mSize - self->mIndex)
+/* constructor of a child object scope: remembers the reader position (start of the map) and starts without a current key */
+unsigned long IMsgPackReader_GetPosition___k(const struct IMsgPackReader* r) { g_child_start = nondet_ulong(); return g_child_start; }
+void CVariableKey_std_tuple_vstr_c8_vsv_c8_i64_u64_f32_f64_CBinTimestamp_ctor(struct CVariableKey_std_tuple_vstr_c8_vsv_c8_i64_u64_f32_f64_CBinTimestamp* k) { (void)k; }
 #include "gen.c"
 
 static struct IMsgPackReader g_reader; static struct SerializationContext g_ctx; static vstr_c8 g_key;
